@@ -650,7 +650,67 @@ func wireAnte(p *Prog, r *Report, clause string) {
 		ok := len(callers) == 1 && strings.HasSuffix(names[0], "AppModule).RegisterServices")
 		r.Check(ok, kp("WIRE", mod+"#MsgServer-registered-once"), "the module's MsgServer is registered exactly once, through RegisterServices", mod+"/module.go",
 			"registered in "+strings.Join(names, ","), "RegisterMsgServer is called from: "+strings.Join(names, ", "))
+		// … and what is registered is the implementation whose handlers are analysed: the module has exactly one hand-written
+		// implementer of its generated MsgServer interface, and the value given to RegisterMsgServer is of that type (a second
+		// implementer — a decorating wrapper, an alternative server — would receive the messages instead)
+		iface := p.Iface(Rel(mod+"/types"), "MsgServer")
+		var impls []string
+		if iface != nil {
+			for _, n := range p.ImplementersOf(iface) {
+				if !strings.HasPrefix(n.Obj().Name(), "Unimplemented") {
+					impls = append(impls, n.String())
+				}
+			}
+		}
+		sort.Strings(impls)
+		regType := ""
+		if len(callers) == 1 {
+			for _, cs := range callSites(callers[0]) {
+				if cs.Callee == nil || resolveBound(cs.Callee) != reg {
+					continue
+				}
+				args := cs.Instr.Common().Args
+				if len(args) >= 2 {
+					regType = dynamicTypeOf(args[1], 0)
+				}
+			}
+		}
+		r.Check(len(impls) == 1 && strings.TrimPrefix(regType, "*") == impls[0], kp("WIRE", mod+"#registered-MsgServer-is-the-analysed-one"),
+			"the value registered as the module's MsgServer is the module's single hand-written implementation", mod+"/module.go",
+			fmt.Sprintf("registered %s; implementers: %v", shortPkg(regType), impls),
+			fmt.Sprintf("RegisterMsgServer is given a %q while the hand-written implementers of %s/types.MsgServer are %v: messages are handled by code other than (or wrapped around) the handlers the rules analyse", shortPkg(regType), mod, impls))
 	}
+}
+
+// dynamicTypeOf: the concrete type behind an interface value built in place or returned by a module constructor on every path.
+func dynamicTypeOf(v ssa.Value, depth int) string {
+	if depth > 4 {
+		return ""
+	}
+	switch x := v.(type) {
+	case *ssa.MakeInterface:
+		return x.X.Type().String()
+	case *ssa.ChangeInterface:
+		return dynamicTypeOf(x.X, depth+1)
+	case *ssa.Call:
+		g := x.Call.StaticCallee()
+		if g == nil || g.Blocks == nil {
+			return ""
+		}
+		t := ""
+		for _, ret := range returnsOf(g) {
+			if len(ret.Results) == 0 {
+				return ""
+			}
+			d := dynamicTypeOf(ret.Results[0], depth+1)
+			if d == "" || (t != "" && t != d) {
+				return ""
+			}
+			t = d
+		}
+		return t
+	}
+	return ""
 }
 
 // wireKeyOwnership: the store key `name` is created and handed to its own module's keeper constructor only. A second keeper (or
